@@ -42,6 +42,14 @@ def run(tier, seed, pid=PID):
     for k in range(nall):
         c, m = daemon.allday_script(rnd, ntasks=rnd.choice([1, 2, 3]))
         rs.append((c, m, None))
+    # the clock is found further on than the time that has passed accounts for (set forward, or the machine slept through some
+    # occurrences): libev reschedules every periodic then.  What came due meanwhile collapses into one late run as for any hold-up
+    njump = 0
+    if pid == 'C04':
+        njump = 4000 if tier == 'thorough' else 500
+        for k in range(njump):
+            c, m = daemon.random_script(rnd, ntasks=3, horizon=14, steps=rnd.choice([25, 40]), maxsims=(0, 0, 0, 2), peers=(1000,), jumps=True)
+            rs.append((c, m, None))
     allscripts = scripts + rs
     recs = daemon.run_many(drv, [(c, m) for c, m, _ in allscripts], wd)
     # the schedule (C04) and the limits (C12: the limit is the task's own) hold across a restart too.  The adds of a script go to a first daemon life, which saves the queue and
@@ -74,6 +82,7 @@ def run(tier, seed, pid=PID):
     for fn, k, g2 in v['bad'][:300]:
         rec = json.loads(vlib.getline(fn, k))
         rec['script'] = allscripts[g2 - 1][0]
+        rec['clock_jump'] = any(x.startswith('TJ\t') for x in rec['script'])
         bad.append((vlib.save_replay(pid, f'run{g2}.json', rec), rec))
     unlisted, listed = vlib.classify(pid, bad)
     ndrift = sum(x.get('ndrift', 0) for x in v['extra'])
@@ -84,7 +93,7 @@ def run(tier, seed, pid=PID):
            'evaluations': v['n'], 'distinct_nontrivial': len(set('\n'.join(c) for c, _, _ in allscripts)),
            'rule': 'one case = one run of the real daemon code (src/echsd.c included unmodified, virtual clock, explicit bag of pending callbacks): a script of requests, clock ticks, reify, delivery choices and child exits. Model part: paths through the state graph of the small Echsd configuration that together traverse its transitions; random part: 2..6 tasks, late wake-ups, equal seconds, replaces and cancels while runs are alive',
            'model_graph_states': g['states'], 'model_graph_edges': nedges, 'model_cover_scripts_total': total_scripts, 'model_scripts_run': nmodel,
-           'model_edges_replayed': ncov if tier == 'thorough' else 'part (%d of %d cover scripts)' % (nmodel, total_scripts), 'random_scripts': nrand, 'two_life_scripts': ntwo, 'all_day_scripts': nall,
+           'model_edges_replayed': ncov if tier == 'thorough' else 'part (%d of %d cover scripts)' % (nmodel, total_scripts), 'random_scripts': nrand, 'clock_jump_scripts': njump, 'two_life_scripts': ntwo, 'all_day_scripts': nall,
            'spawns_observed': nspawn, 'not_run_spawns_observed': nnorun, 'mismatching_runs': v['nbad'], 'model_drift_runs': ndrift,
            'e1_constants': 'quick: 2 tasks, occurrence lists {<<1>>,<<1,1>>,<<1,2>>}, limits {unset,1}, clock 0..4, 1 replace/cancel; thorough: 5 lists incl. <<0,3>> and <<2,4>>, limits {unset,1,2}, clock 0..5 (14 M states)',
            'e1_actions': e1['coverage'], 'exhaustive': tier == 'thorough'}
